@@ -126,3 +126,54 @@ Example ex_nosolid_differs :
   map r_name (list_rows true 0 (fun _ => false) ex_rows) = [lit "a/b c"; lit "d/l"] /\
   In (lit "d", lit "l", 2) (tree_nodes (list_rows true 0 (fun _ => false) ex_rows)).
 Proof. vm_compute. repeat split. right. right. right. left. reflexivity. Qed.
+
+(* ---- -q (hide_control_chars) ------------------------------------------------------------------------ *)
+(* what -q prints holds no byte below 0x20 and no 0x7f: in particular no line feed, whatever the names are *)
+Lemma hide_control_graphic_len n : forall s, (length s <= n)%nat ->
+  Forall (fun b => 32 <= b2n b /\ b2n b <> 127) (hide_control s).
+Proof.
+  induction n as [|n IH]; intros s Hn.
+  - destruct s; [constructor | cbn in Hn; lia].
+  - destruct s as [|b r]; [constructor|]. cbn [length] in Hn. cbn [hide_control].
+    destruct ((b2n b <? 32) || (b2n b =? 127)) eqn:Hc.
+    + constructor; [cbv; split; [discriminate|discriminate] | apply IH; lia].
+    + apply orb_false_iff in Hc. destruct Hc as [H1 H2].
+      apply N.ltb_ge in H1. apply N.eqb_neq in H2.
+      destruct (b2n b =? 194) eqn:H194.
+      * destruct r as [|b2 r2]; [repeat constructor; assumption|].
+        destruct ((128 <=? b2n b2) && (b2n b2 <=? 159)).
+        -- constructor; [cbv; split; discriminate | apply IH; cbn [length] in Hn; lia].
+        -- constructor; [split; assumption | apply IH; lia].
+      * constructor; [split; assumption | apply IH; lia].
+Qed.
+Lemma hide_control_graphic s : Forall (fun b => 32 <= b2n b /\ b2n b <> 127) (hide_control s).
+Proof. apply (hide_control_graphic_len (length s)). lia. Qed.
+Definition count_lf (s : bytes) : nat := length (filter (fun b => b2n b =? 10) s).
+Lemma count_lf_app a b : count_lf (a ++ b) = (count_lf a + count_lf b)%nat.
+Proof. unfold count_lf. rewrite filter_app, app_length. reflexivity. Qed.
+Lemma count_lf_graphic s : Forall (fun b => 32 <= b2n b /\ b2n b <> 127) s -> count_lf s = 0%nat.
+Proof.
+  unfold count_lf. induction 1 as [|b s [Hb _] _ IH]; [reflexivity|]. cbn [filter].
+  destruct (b2n b =? 10) eqn:E; [apply N.eqb_eq in E; lia | exact IH].
+Qed.
+(* -q: exactly one output line per listed row (the rows are those of list_rows: -q is not an argument of it) *)
+Theorem plain_q_one_line_per_row classify rs : count_lf (plain_output_q classify rs) = length rs.
+Proof.
+  unfold plain_output_q. induction rs as [|r rs IH]; [reflexivity|].
+  cbn [map concat length]. rewrite !count_lf_app, IH. unfold display_q.
+  rewrite (count_lf_graphic _ (hide_control_graphic _)). reflexivity.
+Qed.
+(* names without control characters are printed unchanged *)
+Lemma hide_control_id_len n : forall s, (length s <= n)%nat ->
+  Forall (fun b => 32 <= b2n b /\ b2n b <> 127 /\ b2n b <> 194) s -> hide_control s = s.
+Proof.
+  induction n as [|n IH]; intros s Hn Hs.
+  - destruct s; [reflexivity | cbn in Hn; lia].
+  - destruct s as [|b r]; [reflexivity|]. inversion Hs as [|? ? (H1 & H2 & H3) Hr]; subst. cbn [length] in Hn. cbn [hide_control].
+    replace (b2n b <? 32) with false by (symmetry; apply N.ltb_ge; exact H1).
+    replace (b2n b =? 127) with false by (symmetry; apply N.eqb_neq; exact H2).
+    replace (b2n b =? 194) with false by (symmetry; apply N.eqb_neq; exact H3).
+    cbn [orb]. f_equal. apply IH; [lia | exact Hr].
+Qed.
+Example ex_hide : hide_control (lit "a" ++ [x09; xc2; x85; xc2; xa9; x7f] ++ lit "b") = lit "a??" ++ [xc2; xa9] ++ lit "?b".
+Proof. vm_compute. reflexivity. Qed.
